@@ -98,7 +98,14 @@ pub fn seeds(name: &str) -> &'static [&'static [u8]] {
         "push.pattern" => &[b"hel*o", b"m?self", b"a.b\\*c", b"*", b"h*l*o m? *", b"[a-z]+(x)|\\d{2,}$^"],
         "push.event" => &[EV_MESSAGE, EV_MEMBER, br#"{"type":"m.room.message","sender":"@b:h","content":{"body":"Me Myself @room","m.mentions":{"user_ids":["@me:h"],"room":true},"a.b":{"c\\d":1}}}"#],
         "sig.verify_json" => &[SIGNED],
-        "sig.verify_event" => &[SIGNED_EVENT, EV_MEMBER],
+        "sig.verify_event" => &[
+            SIGNED_EVENT,
+            EV_MEMBER,
+            // event IDs without a server part (the v3/v4 formats, or a bare `$a`) under room version 1/2 rules
+            br#"{"auth_events":[],"content":{"membership":"join"},"depth":3,"event_id":"$a","hashes":{"sha256":"5jM4wQpv6lnBo7CLIghJuHdW+s2CMBJPUOGOC89ncos"},"origin_server_ts":1,"prev_events":[],"room_id":"!x:domain","sender":"@a:domain","signatures":{"domain":{"ed25519:1":"KxwGjPSDEtvnFgU00fwFz+l6d2pJM6XBIaMEn81SXPTRl16AqLAYqfIReFGZlHi5KLjAWbOoMszkwsQma+lYAg"}},"state_key":"@a:domain","type":"m.room.member"}"#,
+            br#"{"content":{},"event_id":"$Rqnc-F-dvnEYJTyHq_iKxU2bZ1CI92-kuZq3a5lr5Zg","hashes":{"sha256":"x"},"room_id":"!x:domain","sender":"@a:domain","signatures":{"domain":{"ed25519:1":"c2ln"}},"type":"m.room.message"}"#,
+            br#"{"content":{},"event_id":"$","room_id":"!x:domain","sender":"@a:domain","signatures":{},"type":"m.room.message"}"#,
+        ],
         "sig.hash" => &[SIGNED_EVENT, EV_MEMBER, EV_POWER],
         "sig.sign" => &[SIGNED, SIGNED_EVENT, br#"{"a":1,"signatures":{"other":{"ed25519:9":"x"}},"unsigned":{}}"#],
         "sig.der" => &[DER_V1, DER_RING],
@@ -122,6 +129,14 @@ pub fn seeds(name: &str) -> &'static [&'static [u8]] {
             br#"{"kind":"room","id":"!r:h","after":"!q:h","before":null,"pre":["!r:h"],"default":true}"#,
             br#"{"kind":"sender","id":"@a:h","after":null,"before":"@zz:h","pre":["@a:h","@b:h"],"default":false}"#,
             br#"{"kind":"underride","id":"new","after":"a","before":"c","pre":["a","b","c","d"],"default":true}"#,
+            br#"{"op":"remove","kind":"override","id":"a","pre":["a","b"],"default":true}"#,
+            br#"{"op":"remove","kind":"my_kind","id":"a","pre":["a","b"],"prekind":"override","default":true}"#,
+            br#"{"op":"remove","kind":"Override","id":"a","pre":["a"],"prekind":"override","default":false}"#,
+            br#"{"op":"remove","kind":"","id":".m.rule.master","pre":[],"default":true}"#,
+            br#"{"op":"remove","kind":"content","id":"zz","pre":["a"],"default":true}"#,
+            br#"{"op":"set_enabled","kind":"my_kind","id":"a","pre":["a"],"prekind":"underride","default":true}"#,
+            br#"{"op":"set_actions","kind":"room","id":"!r:h","pre":["!r:h"],"default":false}"#,
+            br#"{"op":"set_actions","kind":"x.y","id":"!r:h","pre":["!r:h"],"prekind":"room","default":false}"#,
         ],
         "html.strict" | "html.compat" | "html.parse" => &[HTML1, HTML2, HTML3],
         other => panic!("no seeds for {other}"),
